@@ -402,7 +402,12 @@ def vclass(fam, v):
     return fam
 
 
+NUL_CLIENT = "bind=client,val=str:nul"  # one root cause (NUL inside the statement text), whatever the position
+
+
 def case_class(style, pos, fam, v):
+    if vclass(fam, v) == "str:nul" and bind_kind(style) == "client":
+        return NUL_CLIENT
     if pos == "sessvar_pct" and bind_kind(style) == "client":
         # the shape that matters here is the statement (a variable whose value holds a percent sign), not the value
         # (NUL keeps its own class: it fails under client-side binding for a reason of its own)
@@ -681,6 +686,8 @@ def run_pair(env, style, which, a, bval, acc, replay):
     lv_ok, _, _ = judge(fams, rows, ("str", "str"), tp1, obs_l, [])
     va, vb = vclass("str", a), vclass("str", bval)
     cls = f"pos=pair_{which},bind={bind_kind(style)},val={'str:nul' if 'str:nul' in (va, vb) else va + '|' + vb}"
+    if "str:nul" in (va, vb) and bind_kind(style) == "client":
+        cls = NUL_CLIENT
     detail = {
         "style": style, "position": "pair_" + which, "values": [a, bval], "sql": sql_b, "params": b.params(),
         "expected_rows": rows, "expected_target": tp1, "bound": show(obs_b), "mode": mode, "literal_sql": sql_l,
@@ -768,6 +775,8 @@ def run_many(env, style, kind, stmt, F, sets, acc, replay):
     # the value shape of a window is its most demanding member (the shapes that deviate in the grid come first)
     worst = next((c for c in ("str:nul", "int:pos_over_uint64") if c in vcs), "other")
     cls = f"stmt={stmt},sets={len(sets)},bind={bind_kind(style)},fam={F.name},val={worst}"
+    if worst == "str:nul" and bind_kind(style) == "client":
+        cls = NUL_CLIENT
     detail = {
         "style": style, "statement": sql, "seqparams": seqparams, "expected_target": tg1, "executemany": out,
         "target_after_executemany": tg_many, "target_after_single_executes": tg_single, "single_outcomes": outs,
